@@ -69,11 +69,48 @@ class Ent:
         return ("V%d" if self.kind == "var" else "F%d") % self.idx
 
 
+class SVar:
+    """a package-level STATE variable: constant-ish non-zero initialiser, no trace line of its own; the package's declared
+    init functions assign constants to it (zero constants mostly: `S0 = 0`, `S1 = ""`, `S2 = false`, `S3 = nil`) and add
+    its current value to the value they trace - so a trace line of an init function also shows that the assignments made
+    by the init functions before it (and by itself) took effect after the variable initialisers.
+    The value is kept as an int `level` (what `read()` evaluates to)."""
+    KINDS = ["int", "str", "bool", "float", "ptr"]
+
+    def __init__(self, pkg, k, kind, level, file):
+        self.pkg, self.k, self.kind, self.v0, self.file = pkg, k, kind, level, file
+
+    @property
+    def goname(self):
+        return "S%d" % self.k
+
+    def lit(self, level):
+        if self.kind == "int":
+            return str(level)
+        if self.kind == "str":
+            return '"%s"' % ("x" * level)
+        if self.kind == "bool":
+            return "true" if level else "false"
+        if self.kind == "float":
+            return ("%d.%d" % (level // 2, 5 * (level % 2))) if level else "0"
+        return "new(int)" if level else "nil"
+
+    def rand_level(self, rng):
+        return {"int": rng.randint(1, 9) * (10 ** rng.randint(0, 2)), "str": rng.randint(1, 5), "bool": 1, "float": rng.randint(1, 9), "ptr": 1}[self.kind]
+
+    def read(self):
+        return {"int": "%s", "str": "len(%s)", "bool": "tr.B(%s)", "float": "int(%s * 2)", "ptr": "tr.P(%s)"}[self.kind] % self.goname
+
+    def decl(self):
+        return "var %s = %s\n" % (self.goname, self.lit(self.v0))
+
+
 class Init:
     def __init__(self, pkg, file, k):
         self.pkg, self.file, self.k = pkg, file, k
         self.const = 0
         self.refs = []
+        self.pre, self.reads, self.post = [], [], []     # [(SVar, level)] assigned before the trace call, [SVar] read by it, assigned after it
 
     @property
     def label(self):
@@ -162,6 +199,7 @@ def gen_tree(rng, mod, npk=None, atomic=None, layout=None, std=(), p_wf=0.3):
             w.refs += std_refs(p, set(), force=True)
             rng.shuffle(w.refs)
             p.w = w
+            p.svars = []
             fill = ["const K%d = %d\n" % (p.id, w.const), "type Box%d struct{ N int }\n\nfunc (b Box%d) Get() int { return b.N + K%d }\n" % (p.id, p.id, p.id),
                     "func Twice%d(x int) int { return 2 * x }\n" % p.id]
             for f in range(nfile):
@@ -213,6 +251,21 @@ def gen_tree(rng, mod, npk=None, atomic=None, layout=None, std=(), p_wf=0.3):
                     if rng.random() < 0.3:
                         it.refs.append(dep_ref(q))
                 p.inits.append(it)
+        # state variables: reset / set by the declared init functions, read by them (see SVar)
+        p.svars = []
+        if p.inits and rng.random() < 0.9:
+            for k in range(rng.randint(1, 4)):
+                sv = SVar(p, k, rng.choice(SVar.KINDS), 0, rng.randrange(nfile))
+                sv.v0 = sv.rand_level(rng)
+                p.svars.append(sv)
+            for it in p.inits:
+                for sv in p.svars:
+                    if rng.random() < 0.45:
+                        it.pre.append((sv, 0 if rng.random() < 0.7 else sv.rand_level(rng)))
+                    if rng.random() < 0.65:
+                        it.reads.append(sv)
+                    if rng.random() < 0.25:
+                        it.post.append((sv, 0 if rng.random() < 0.6 else sv.rand_level(rng)))
         # source order inside each file: random interleaving of that file's declarations
         for f in range(nfile):
             if p.workfree:
@@ -226,6 +279,9 @@ def gen_tree(rng, mod, npk=None, atomic=None, layout=None, std=(), p_wf=0.3):
             pos = [i for i, d in enumerate(decls) if isinstance(d, Init)]
             for i, it in zip(pos, sorted(inits_f, key=lambda x: x.k)):
                 decls[i] = it
+            for sv in p.svars:
+                if sv.file == f:
+                    decls.insert(rng.randint(0, len(decls)), sv.decl())
             p.decl_order[f] = decls
         # imports per file (Go wants every import of a file used in that file)
         used_pk = set()
@@ -272,6 +328,7 @@ def gen_tree(rng, mod, npk=None, atomic=None, layout=None, std=(), p_wf=0.3):
     t.imports_order = {p.id: imports_order(t, p) for p in pk}
     t.reachable = reach(t)
     t.spec_body = {p.id: spec_body(t, p) for p in pk}
+    t.reset_observable = any(spec_body(t, p, lost_zero_stores=True) != t.spec_body[p.id] for p in pk if p.id in t.reachable)
     return t
 
 
@@ -297,7 +354,8 @@ def render(t):
     files = {}      # relative to the tree's root directory; the batch writes go.mod (t.mod is the import path of the root)
     files["tr/tr.go"] = ("package tr\n\nvar n int\n\n// T traces one initialisation step.\n"
                          "func T(s string, v int) int { println(s, v); n++; return v }\n\n"
-                         "func N() int { return n }\n\nvar Ready = T(\"tr.Ready\", 1)\n\nfunc init() { T(\"tr.init\", 2) }\n")
+                         "func N() int { return n }\n\n// B, P: a bool / a pointer as a number.\nfunc B(b bool) int {\n\tif b {\n\t\treturn 1\n\t}\n\treturn 0\n}\n\n"
+                         "func P(p *int) int {\n\tif p != nil {\n\t\treturn 1\n\t}\n\treturn 0\n}\n\nvar Ready = T(\"tr.Ready\", 1)\n\nfunc init() { T(\"tr.init\", 2) }\n")
     n = len(t.pkgs)
     for p in t.pkgs[1:]:
         for f in p.live_files:
@@ -315,7 +373,13 @@ def render(t):
                     out.append("// W: this package has no package-level variable initialiser and no init function.\n"
                                "func W() int { return %s }\n" % expr(p, "K%d" % p.id, d.refs))
                 elif isinstance(d, Init):
-                    out.append('func init() { tr.T("%s", %s) }\n' % (d.label, expr(p, d.const, d.refs)))
+                    body = ["%s = %s" % (sv.goname, sv.lit(lv)) for sv, lv in d.pre]
+                    body.append('tr.T("%s", %s)' % (d.label, " + ".join([expr(p, d.const, d.refs)] + [sv.read() for sv in d.reads])))
+                    body += ["%s = %s" % (sv.goname, sv.lit(lv)) for sv, lv in d.post]
+                    if len(body) == 1:
+                        out.append("func init() { %s }\n" % body[0])
+                    else:
+                        out.append("func init() {\n\t%s\n}\n" % "\n\t".join(body))
                 elif getattr(d, "is_cnt", False):
                     out.append("var %s int32\n" % d.goname)
                 elif d.kind == "var":
@@ -376,12 +440,12 @@ def value(e, memo):
     return v
 
 
-def emit(e, memo, out):
+def emit(e, memo, out, extra=0):
     """lines printed while evaluating e's expression (function calls in left-to-right order), then e's own line"""
     for r in e.refs:
         if r[0] == "func":
             emit(r[1], memo, out)
-    out.append("%s %d" % (e.label, value(e, memo)))
+    out.append("%s %d" % (e.label, value(e, memo) + extra))
 
 
 def var_deps(e, seen=None):
@@ -397,7 +461,9 @@ def var_deps(e, seen=None):
     return out
 
 
-def spec_body(t, p):
+def spec_body(t, p, lost_zero_stores=False):
+    """lost_zero_stores: what the body would print if assignments of zero constants made by init functions had no effect
+    (used only to count the trees on which such a loss is observable)"""
     if p.id == 0:
         return ["tr.Ready 1", "tr.init 2"]
     memo = {}
@@ -414,10 +480,17 @@ def spec_body(t, p):
                 break
         else:
             raise RuntimeError("generator produced a cyclic initialisation")
+    state = {sv: sv.v0 for sv in p.svars}
     for f in sorted(p.live_files, key=lambda f: p.files[f]):
         for d in p.decl_order[f]:
             if isinstance(d, Init):
-                emit(d, memo, out)
+                for sv, lv in d.pre:
+                    if lv or not lost_zero_stores:
+                        state[sv] = lv
+                emit(d, memo, out, sum(state[sv] for sv in d.reads))
+                for sv, lv in d.post:
+                    if lv or not lost_zero_stores:
+                        state[sv] = lv
     return out
 
 
